@@ -195,6 +195,40 @@ func genDyn(e *env, rng *gen.Rng) {
 			}
 		}
 	}
+	// upward-scroll family (the shape that exposed F119f): varied heights, select far down, draw,
+	// scroll up by a pending amount, draw, change the selection, draw
+	upCases := 4000
+	if r.Thorough {
+		upCases = 40000
+	}
+	for c := 0; c < upCases; c++ {
+		n := rng.Range(2, 8)
+		hs := make([]int, n)
+		for i := range hs {
+			hs[i] = rng.Range(1, 6)
+		}
+		H := rng.Range(1, 7)
+		gap := 0
+		if rng.Chance(1, 6) {
+			gap = 1
+		}
+		ops := []string{fmt.Sprintf("dl new %d %d %s", gap, rng.Intn(2), hsStr(hs)),
+			fmt.Sprintf("dl setcursor %d", rng.Range(0, n-1)), fmt.Sprintf("dl draw 4 %d", rng.Range(1, 7))}
+		for k := rng.Range(1, 3); k > 0; k-- {
+			ops = append(ops, fmt.Sprintf("dl pending %d", -rng.Range(1, 9)), fmt.Sprintf("dl draw 4 %d", H))
+			switch rng.Intn(4) {
+			case 0:
+				ops = append(ops, "dl next")
+			case 1:
+				ops = append(ops, "dl prev")
+			default:
+				ops = append(ops, fmt.Sprintf("dl setcursor %d", rng.Range(0, n-1)))
+			}
+			ops = append(ops, fmt.Sprintf("dl draw 4 %d", H))
+		}
+		run(ops)
+		r.Count("dl-scrollup")
+	}
 	// random long histories
 	cases := 3000
 	if r.Thorough {
